@@ -63,7 +63,11 @@ def typed_inputs(rng, n):
     samples = {
         "opt(u8)": [b"\xf6", b"\x05", b"\x18\xff", b"\x19\x01\x00", b"\xf7", b"\x38"],
         "tup(u8,i16,bool)": [b"\x83\x01\x21\xf5", b"\x9f\x01\x21\xf5\xff", b"\x82\x01\x21", b"\x83\x01\x39\x80\x00\xf4"],
-        "arr(3,u16)": [b"\x83\x01\x02\x03", b"\x9f\x01\x02\x03\xff", b"\x84\x01\x02\x03\x04", b"\x82\x01\x02", b"\x9f\x01\x02\x03\x04\xff"],
+        "arr(3,u16)": [b"\x83\x01\x02\x03", b"\x9f\x01\x02\x03\xff", b"\x84\x01\x02\x03\x04", b"\x82\x01\x02", b"\x9f\x01\x02\x03\x04\xff",
+                       # longer than the array by two and more, a non-element / a truncated tail / a missing break behind it
+                       b"\x85\x01\x02\x03\x04\x05", b"\x86\x01\x02\x03\x04\x05\x06", b"\x84\x01\x02\x03\x61\x61", b"\x85\x01\x02\x03\x04\x61\x61",
+                       b"\x84\x01\x02\x03", b"\x85\x01\x02\x03\x04", b"\x9f\x01\x02\x03\x04", b"\x9f\x01\x02\x03\x04\x05\xff", b"\x9f\x01\x02\x03\x04\x61\x61\xff",
+                       b"\x98\xff\x01\x02\x03\x04", b"\x9b\xff\xff\xff\xff\xff\xff\xff\xff\x01\x02\x03\x04\x05", b"\x84\x01\x02\x03\x9f\xff", b"\x84\x01\x02\x03\xff"],
         "fields(u32,u32)": [b"\x82\x01\x02", b"\x83\x01\x02\x03", b"\x9f\x01\x02\xff", b"\x81\x01", b"\x84\x01\x02\x82\x01\x02\x03", b"\x9f\x01\x02\x03\x04\xff"],
         "duration": [b"\x82\x05\x06", b"\x82\x1b" + b"\xff" * 8 + b"\x1a\x3b\x9a\xca\x00", b"\x82\x05\x1a\x3b\x9a\xc9\xff", b"\x9f\x05\x06\xff"],
         "str": [b"\x61a", b"\x62\xc3\xa9", b"\x61\xff", b"\x7f\x61a\xff", b"\x78\x01a"],
@@ -85,7 +89,8 @@ def typed_inputs(rng, n):
         "i8": [b"\x38\x7f", b"\x38\x80", b"\x18\x7f", b"\x18\x80", b"\x39\x00\x01"],
         "barr(4)": [b"\x44\x01\x02\x03\x04", b"\x43\x01\x02\x03", b"\x45\x01\x02\x03\x04\x05", b"\x5f\x44\x01\x02\x03\x04\xff", b"\x64abcd"],
         "bytes": [b"\x42\x01\x02", b"\x40", b"\x5f\x41\x01\xff", b"\x61a", b"\x58\x02\x01\x02"],
-        "arr(2,opt(tup(u8,bool)))": [b"\x82\xf6\x82\x01\xf5", b"\x9f\x82\x01\xf4\xf6\xff", b"\x82\xf6\x83\x01\xf5\x00", b"\x81\xf6", b"\x83\xf6\xf6\xf6"],
+        "arr(2,opt(tup(u8,bool)))": [b"\x82\xf6\x82\x01\xf5", b"\x9f\x82\x01\xf4\xf6\xff", b"\x82\xf6\x83\x01\xf5\x00", b"\x81\xf6", b"\x83\xf6\xf6\xf6",
+                                     b"\x84\xf6\xf6\xf6\xf6", b"\x84\xf6\xf6\xf6\x05", b"\x84\xf6\xf6\xf6", b"\x9f\xf6\xf6\xf6\xf6\xff", b"\x9f\xf6\xf6\xf6\x82\x01\xff", b"\x9f\xf6\xf6\xf6"],
         "enum(u8,str)": [b"\x82\x00\x05", b"\x82\x01\x61a", b"\x82\x02\x05", b"\x9f\x00\x05\xff", b"\x81\x00", b"\x82\x00\x61a"],
     }
     for d, xs in samples.items():
@@ -136,7 +141,37 @@ def corpus(rng, tier):
     for n in (0, 1, 23, 24, 60):
         ops.append(f"enc bytes {gen.hexb(gen.rand_bytes(rng, n))}")
         ops.append(f"enc str {gen.hexb(bytes(rng.randint(0x20, 0x7e) for _ in range(n)))}")
+    ops += encseq_ops(rng, 1500 if q else 30000)
     return ops
+
+
+def encseq_ops(rng, n):
+    """call scripts on ONE encoder over a small bounded sink, carrying on after a call that did not fit: what a failed
+    write leaves behind (bytes, room) is state the next call sees"""
+    def call():
+        k = rng.choice(["u8", "u16", "u32", "u64", "i64", "int", "bytes", "bytes", "str", "array", "map", "tag", "bool", "null",
+                        "f32", "f64", "char", "simple", "begin_array", "begin_bytes", "end", "undefined"])
+        if k in ("u8",): return f"u8:{rng.choice([0, 23, 24, 255])}"
+        if k == "u16": return f"u16:{rng.choice([0, 24, 255, 256, 1000, 65535])}"
+        if k == "u32": return f"u32:{rng.choice([5, 255, 65536, 4294967295])}"
+        if k in ("u64", "array", "map", "tag"): return f"{k}:{rng.choice([0, 23, 24, 256, 65536, 4294967296, 2**64 - 1])}"
+        if k == "i64": return f"i64:{rng.choice([-1, -25, -257, -65537, -2**63, 7])}"
+        if k == "int": return f"int:{rng.choice([-2**64, -1, 2**64 - 1, -4294967297])}"
+        if k == "bytes": return f"bytes:{gen.hexb(gen.rand_bytes(rng, rng.choice([0, 1, 2, 3, 5, 8, 13, 24, 30])))}"
+        if k == "str": return f"str:{gen.hexb(bytes(rng.randint(0x61, 0x7a) for _ in range(rng.choice([0, 1, 2, 4, 7, 11, 24]))))}"
+        if k == "bool": return f"bool:{rng.randint(0, 1)}"
+        if k == "f32": return f"f32:{rng.getrandbits(32):08x}"
+        if k == "f64": return f"f64:{rng.getrandbits(64):016x}"
+        if k == "char": return f"char:{rng.choice([0x41, 0xe9, 0x20ac, 0x1f600])}"
+        if k == "simple": return f"simple:{rng.choice([0, 19, 32, 255])}"
+        return k
+    out = ["encseq slice 6 u8:1 bytes:1111111111111111 u16:1000", "encseq cslice 6 u8:1 bytes:1111111111111111 u16:1000",
+           "encseq carr 12 u8:1 bytes:11111111111111111111111111 u16:1000 u64:5000000000 u8:3 u8:4"]
+    for _ in range(n):
+        kind = rng.choice(["slice", "cslice", "carr"])
+        cap = 12 if kind == "carr" else rng.choice([0, 1, 2, 3, 5, 6, 8, 9, 12, 16, 24, 40])
+        out.append(f"encseq {kind} {cap} " + " ".join(call() for _ in range(rng.randint(1, 8))))
+    return out
 
 
 def serde_corpus(rng, tier):
